@@ -116,13 +116,12 @@ Proof.
   apply xsum_extend; [assumption|]. intros l Hl. rewrite (get_out_row N) by (auto; lia). apply andb_false_r.
 Qed.
 
-Definition is_split (v : var) : bool := match v with Vmmm | Vkkk | Vnnn => true | _ => false end.
-
 Section Den.
   Variable D : nat.
   Variable X : nat -> mat.     (* the 8 input blocks *)
   Variable Q : nat -> mat.     (* the 4 initial quadrants of C *)
   Variable E : env.
+  Variable is_split : var -> bool.    (* the split variables of the routine *)
 
   Definition den_lin (a : N) (i j : nat) : bool := xsum 8 (fun t => tb a t && get (X t) i j).
   Definition den_bil (a : N) (i j : nat) : bool :=
@@ -212,7 +211,7 @@ End Den.
 
 (* ------------------------------------------------------------------------------------------ *)
 (** * Simulation: concrete execution of an accepted block schedule vs. its symbolic execution *)
-Lemma pdims_split k p a b : pdims k p = Some (a, b) -> is_split a = true /\ is_split b = true.
+Lemma pdims_split k p a b : pdims k p = Some (a, b) -> dim_ok k a = true /\ dim_ok k b = true.
 Proof. destruct k, p; cbn; intros H; inversion H; auto. Qed.
 
 Definition acc_spec (kk : kind) (Cd Xm Ym : mat) : mat :=
@@ -228,6 +227,7 @@ Section Sim.
   Variables A B C0 : mat.
   Let F := fenv_of A B C0.
   Variable D : nat.
+  Notation is_split := (dim_ok k).
   Hypothesis wfA : wf A.
   Hypothesis wfB : wf B.
   Hypothesis wfC0 : wf C0.
@@ -243,7 +243,7 @@ Section Sim.
     msub M ((q / 2) * pdr p) ((q mod 2) * pdc p) (pdr p) (pdc p).
   Definition X (t : nat) : mat := if t <? 4 then blk A PA t else blk B PB (t - 4).
   Definition Q (q : nat) : mat := blk C0 PC q.
-  Notation rep' := (rep D X Q E).
+  Notation rep' := (rep D X Q E is_split).
 
   Hypothesis rec_ok : forall kk w c Cd Xm Ym, wf Cd -> wf Xm -> wf Ym ->
     nc Xm = nr Ym -> nr Cd = nr Xm -> nc Cd = nc Ym ->
@@ -597,7 +597,7 @@ Section Sim.
   Definition init_tmps (tmps : list (string * (aexp * aexp))) : list (string * mat) :=
     map (fun p => (fst p, mzero (aeval E F (fst (snd p))) (aeval E F (snd (snd p))))) tmps.
 
-  Lemma split_var_spec a v : split_var a = Some v -> a = AVar v /\ is_split v = true.
+  Lemma split_var_spec a v : split_var a = Some v -> a = AVar v.
   Proof.
     destruct a as [?|w|? ?|? ?|? ?|? ?|? ?|? ?|? ?|? ?]; try discriminate. destruct w; try discriminate;
       cbn; intros H; inversion H; auto.
@@ -627,9 +627,11 @@ Section Sim.
       cbn [map forallb fst snd] in Hall.
       destruct (split_var a) as [r|] eqn:Sa; [|discriminate].
       destruct (split_var b) as [c|] eqn:Sb; [|discriminate].
-      cbn [init_tmps map flat_map fst snd assoc app]. rewrite Sa, Sb. cbn [app assoc].
+      destruct (dim_ok k r && dim_ok k c) eqn:Hok; [|discriminate].
+      apply andb_true_iff in Hok as [Sr Sc].
+      cbn [init_tmps map flat_map fst snd assoc app]. rewrite Sa, Sb, Sr, Sc. cbn [app assoc andb].
       destruct (String.eqb x y).
-      + apply split_var_spec in Sa as [-> Sr], Sb as [-> Sc]. cbn [aeval]. now apply rep_zero.
+      + apply split_var_spec in Sa as ->, Sb as ->. cbn [aeval]. now apply rep_zero.
       + apply IH. exact Hall.
   Qed.
 
@@ -727,18 +729,15 @@ Section Sim.
             try (destruct (gmul D (get (X (s / 8))) (get (X (s mod 8))) i' j'); reflexivity).
           exfalso. unfold s0, s1 in *. lia. }
       rewrite xsum_xor, !xsum_indicator.
-      assert (s0 < 64 /\ s1 < 64) as [L0 L1] by (unfold s0, s1; clearbody i j; lia).
+      assert (L0 : s0 < 64) by (unfold s0; lia). assert (L1 : s1 < 64) by (unfold s1; lia).
       destruct (Nat.ltb_spec s0 64), (Nat.ltb_spec s1 64); try lia. cbn [andb].
-      replace (s0 / 8) with (2 * i + 0) by (unfold s0; rewrite Nat.mul_comm, Nat.div_add_l, Nat.div_small; lia).
-      replace (s0 mod 8) with (bidx k 0 j)
-        by (unfold s0; rewrite Nat.add_comm, Nat.mul_comm, Nat.mod_add, Nat.mod_small; lia).
-      replace (s1 / 8) with (2 * i + 1) by (unfold s1; rewrite Nat.mul_comm, Nat.div_add_l, Nat.div_small; lia).
-      replace (s1 mod 8) with (bidx k 1 j)
-        by (unfold s1; rewrite Nat.add_comm, Nat.mul_comm, Nat.mod_add, Nat.mod_small; lia).
+      replace (s0 / 8) with (2 * i + 0) by (unfold s0; lia).
+      replace (s0 mod 8) with (bidx k 0 j) by (unfold s0; lia).
+      replace (s1 / 8) with (2 * i + 1) by (unfold s1; lia).
+      replace (s1 mod 8) with (bidx k 1 j) by (unfold s1; lia).
       rewrite !gmul_blocks by (auto; lia).
       replace (2 * kd) with (kd + kd) by lia. rewrite xsum_app. f_equal.
-      + apply xsum_ext. intros t _. now rewrite Nat.mul_0_l.
-      + apply xsum_ext. intros t _. now rewrite Nat.mul_1_l.
+      apply xsum_ext. intros t _. now rewrite Nat.mul_1_l.
   Qed.
 
   Theorem check_body_sound tmps body : check_body k wins tmps body = true ->
